@@ -620,9 +620,14 @@ def np_repeat(ex, st, args, kwargs):
 def np_tile(ex, st, args, kwargs):
     a = L.as_arr(args[0])
     reps = args[1]
-    creps = V.conc(reps) if not isinstance(reps, int) else reps
-    if not isinstance(creps, int):
-        raise Unsupported("symbolic tile count")
+    if isinstance(reps, (tuple, list)):
+        creps = tuple(r if isinstance(r, int) else V.conc(r) for r in reps)
+        if not all(isinstance(r, int) for r in creps):
+            raise Unsupported("symbolic tile count")
+    else:
+        creps = V.conc(reps) if not isinstance(reps, int) else reps
+        if not isinstance(creps, int):
+            raise Unsupported("symbolic tile count")
     return SArr(_np.tile(a.a, creps).copy(), a.kind)
 
 
@@ -959,7 +964,7 @@ def sp_sqrtm(ex, st, args, kwargs):
 
 def np_det(ex, st, args, kwargs):
     L.used("numpy.linalg.det: opaque")
-    return z3.Real("det!%d" % V.fresh_id())
+    return z3.Real("det_unknown!%d" % V.fresh_id())
 
 
 def np_random_normal(ex, st, args, kwargs):
@@ -1259,6 +1264,39 @@ def np_trace(ex, st, args, kwargs):
     return L.reduce(SArr(d.copy(), a.kind), V.add, Fraction(0) if a.kind == "f" else 0, -1 if d.ndim > 1 else None)
 
 
+def np_putmask(ex, st, args, kwargs):
+    """np.putmask(a, mask, values): in-place a[mask] = values (scalar or same-shape values)."""
+    a, mask = args[0], L.as_arr(args[1])
+    if not isinstance(a, SArr):
+        ex.ctx.obligation("no-raise:TypeError(putmask on a non-array)", False)
+        raise _sx().PathDead("putmask")
+    vals = L.as_arr(args[2])
+    if mask.shape != a.shape or not (vals.size == 1 or vals.shape == a.shape):
+        raise Unsupported("putmask with broadcasting / repeating values")
+    for pos in itertools.product(*[range(n) for n in a.shape]):
+        v = vals.flat()[0] if vals.size == 1 else vals.a[pos]
+        m = mask.a[pos]
+        m = m if V.is_bool(m) else V.ne(m, 0)
+        a.a[pos] = L.to_kind(V.ite(m, v, a.a[pos]), a.kind)
+    st.log.append(("arr", id(a)))
+    return None
+
+
+def t_diag_embed(ex, st, args, kwargs):
+    a = L.as_arr(args[0])
+    n = a.shape[-1]
+    zero = Fraction(0) if a.kind == "f" else 0
+    out = _np.empty(a.shape + (n,), dtype=object)
+    for pos in itertools.product(*[range(k) for k in a.shape]):
+        for j in range(n):
+            out[pos + (j,)] = a.a[pos] if j == pos[-1] else zero
+    return _torchify(SArr(out, a.kind))
+
+
+NP["numpy.putmask"] = np_putmask
+NP["torch.diag_embed"] = t_diag_embed
+NP["numpy.asanyarray"] = np_asarray
+NP["numpy.ascontiguousarray"] = np_asarray
 NP["numpy.trace"] = np_trace
 NP.update({"numpy.clip": np_clip, "numpy.einsum": np_einsum, "numpy.outer": np_outer, "numpy.prod": np_prod,
            "numpy.cumsum": np_cumsum, "numpy.isclose": np_isclose, "numpy.sign": np_sign, "numpy.square": np_square,
